@@ -1472,6 +1472,7 @@ fn c15(ctx: &RunCtx) -> i32 {
             max_chunk,
             pending_pct: *r.pick(&[0u64, 0, 20, 60]),
             end,
+            prebuffered: matches!(link, Link::Json | Link::Bincode) && r.chance(1, 4),
         };
         codec::c15_case(&cfg)
     });
